@@ -27,6 +27,10 @@ FILES = {
     "sub/inc": "// inc comment\nfromInc 7;\ns2 'from include';\n",
     "b.dict": "// only one\nz 26;\ny 'why not';\n",
     "c.json": '{"j": 1, "t": "text", "#include": "b.dict"}',
+    # two includes on one level that define the same key (first wins), a reference that depends on which one won
+    "m.dict": "// two includes\n#include 'inc1'\nown 1; // c\n#include 'inc2'\nres \"$shared + 1\";\n",
+    "inc1": "shared 10;\nonly1 'one';\n",
+    "inc2": "// second\nshared 20;\nonly2 'two';\n",
 }
 
 
@@ -112,7 +116,8 @@ PREFIX_OPS = [("read", ("a.dict", "abs"), {}), ("read", ("a.dict", "rel"), {"ord
               ("parse", ("b.dict", "abs"), {}), ("load", ("a.dict", "abs")), ("dump", "d1", D1), ("reset",), ("chdir", "proj/sub"), ("chdir", "elsewhere")]
 PROBES = [("read", ("a.dict", "abs"), {}), ("read", ("a.dict", "rel"), {"comments": False}), ("read", ("a.dict", "abs"), {"order": True}),
           ("read", ("c.json", "abs"), {}), ("write", "probe", "w", D1, "rel"), ("parse", ("a.dict", "rel"), {}), ("parse", ("a.dict", "abs"), {"order": True, "output": "json"}),
-          ("load", ("a.dict", "rel")), ("dump", "pd", D1)]
+          ("load", ("a.dict", "rel")), ("dump", "pd", D1),
+          ("read", ("m.dict", "abs"), {}), ("read", ("m.dict", "rel"), {"comments": False}), ("parse", ("m.dict", "abs"), {})]
 
 
 def run_history(start: int, cwd: str, prefix: list, probe: tuple):
@@ -197,6 +202,11 @@ def run(ctx: Ctx) -> None:
         for st, cwd, pi in itertools.product(starts, cwds, range(len(PROBES))):
             cases.append({"kind": "hist", "prefix": [], "probe": pi, "start": st, "cwd": cwd})
         ctx.exhaustive.append("8 counter starts (incl. limit-9..limit) x 4 working directories x all probes")
+        # the wrap-around at every position inside one operation: all starts limit-30 .. limit
+        for st, pi in itertools.product(range(LIMIT - 30, LIMIT + 1), range(len(PROBES))):
+            if st not in starts:
+                cases.append({"kind": "hist", "prefix": [], "probe": pi, "start": st, "cwd": "proj"})
+        ctx.exhaustive.append("every counter start in limit-30 .. limit x all probes (the wrap-around falls on every id drawn by a probe)")
     for _ in range(ctx.n(150, 3000)):
         n = rng.randint(2, 6)
         cases.append({"kind": "hist", "prefix": [rng.randrange(len(PREFIX_OPS)) for _ in range(n)], "probe": rng.randrange(len(PROBES)),
